@@ -115,16 +115,29 @@ func vNative(name string, port int) *structs.RegisterRequest {
 // vSnapshotRestore persists s through the real snapshot persisters and restores the stream into a fresh
 // store through the real restorer registry.
 func vSnapshotRestore(s *state.Store) *state.Store {
+	return vPersistRestore(vTakeSnapshot(s))
+}
+
+// vTakeSnapshot is FSM.Snapshot: a point-in-time handle on the store (raft calls Persist on it later,
+// concurrently with further applies).
+func vTakeSnapshot(s *state.Store) *snapshot {
+	backend, berr := raftstorage.NewBackend(vRaftHandle{}, hclog.NewNullLogger())
+	if berr != nil {
+		panic(berr)
+	}
+	storageSnap, serr := backend.Snapshot()
+	if serr != nil {
+		panic(serr)
+	}
+	return &snapshot{state: s.Snapshot(), storageSnapshot: storageSnap}
+}
+
+func vPersistRestore(snap *snapshot) *state.Store {
 	must := func(err error) {
 		if err != nil {
 			panic(err)
 		}
 	}
-	backend, berr := raftstorage.NewBackend(vRaftHandle{}, hclog.NewNullLogger())
-	must(berr)
-	storageSnap, serr := backend.Snapshot()
-	must(serr)
-	snap := &snapshot{state: s.Snapshot(), storageSnapshot: storageSnap}
 	sink := &vSink{}
 	must(snap.Persist(sink))
 	snap.Release()
